@@ -153,3 +153,29 @@ func TestRFC6979KnownAnswer(t *testing.T) {
 		t.Fatalf("k=%x", k)
 	}
 }
+
+// The windowed Mul / BaseMul against plain affine double-and-add, on scalars that exercise every
+// nibble value, window boundaries and reduction mod n.
+func TestMulHostileScalars(t *testing.T) {
+	one := big.NewInt(1)
+	var ks []*big.Int
+	for _, s := range []string{"0", "1", "f", "10", "11", "ff", "100", "123456789abcdef", "fedcba9876543210fedcba9876543210",
+		"ffffffffffffffffffffffffffffffffffffffffffffffffffffffffffffffff", "8000000000000000000000000000000000000000000000000000000000000000",
+		"1111111111111111111111111111111111111111111111111111111111111111", "f0f0f0f0f0f0f0f0f0f0f0f0f0f0f0f0f0f0f0f0f0f0f0f0f0f0f0f0f0f0f0f0"} {
+		ks = append(ks, hexInt(s))
+	}
+	ks = append(ks, new(big.Int).Sub(N, one), new(big.Int).Set(N), new(big.Int).Add(N, one), new(big.Int).Neg(one), new(big.Int).Lsh(N, 3))
+	for i := uint(0); i < 256; i += 37 {
+		ks = append(ks, new(big.Int).Lsh(one, i), new(big.Int).Sub(new(big.Int).Lsh(one, i), one))
+	}
+	p7 := MulSlow(big.NewInt(7), G)
+	for _, k := range ks {
+		want := MulSlow(k, G)
+		if !BaseMul(k).Equal(want) || !Mul(k, G).Equal(want) {
+			t.Fatalf("k*G mismatch for %x", k)
+		}
+		if !Mul(k, p7).Equal(MulSlow(k, p7)) {
+			t.Fatalf("k*P mismatch for %x", k)
+		}
+	}
+}
